@@ -191,7 +191,39 @@ def mutate(r, deep_ok):
     """one structured mutation of a fresh valid torrent: (label, bytes)"""
     t = base_single(r) if r.random() < .45 else base_multi(r)
     kind = r.choice(["valid", "int", "date", "sum", "md5", "paths", "utf8", "nest", "trunc", "swap", "keys", "pieces", "flip",
-                     "plen", "nodes", "urls", "trail", "private", "valid", "sum", "md5", "date"])
+                     "plen", "nodes", "urls", "trail", "private", "valid", "sum", "md5", "date", "tree", "tree"])
+    if kind == "tree":
+        # file lists made only of acceptable components, related to each other in every way a tree builder has to cope with:
+        # the same path twice (adjacent or not), a path that is a proper prefix of another (file and directory of one name,
+        # in both orders), siblings, long shared prefixes, one component, very many files, long and non-ASCII names
+        comps = [b"a", b"b", b"c", b"A", "\u00e9".encode(), b"a b", b"x" * 255, b"...", b"-", b"~", b"a.b", b"0"]
+        shape = r.randrange(9)
+        if shape == 0:
+            q = [r.choice(comps) for _ in range(r.choice([1, 2, 3]))]
+            plist = [q, q] if r.random() < .5 else [q, [b"other"], q]
+        elif shape == 1:
+            q = [r.choice(comps) for _ in range(r.choice([1, 2]))]
+            plist = [q, q + [r.choice(comps)]]
+        elif shape == 2:
+            q = [r.choice(comps) for _ in range(r.choice([1, 2]))]
+            plist = [q + [r.choice(comps)], q]
+        elif shape == 3:
+            q = [r.choice(comps) for _ in range(r.choice([1, 3, 20]))]
+            plist = [q + [c] for c in comps[:r.choice([2, 5, 12])]]
+        elif shape == 4:
+            plist = [[r.choice(comps)]]
+        elif shape == 5:
+            plist = [[b"d%d" % (i % 7), b"f%d" % i] for i in range(r.choice([100, 1000, 3000]))]
+        elif shape == 6:
+            plist = [[r.choice(comps) for _ in range(r.randrange(1, 5))] for _ in range(r.randrange(2, 9))]
+        elif shape == 7:
+            q = [r.choice(comps) for _ in range(r.choice([2, 3]))]
+            plist = [q, q[:1], q, q[:1] + [b"z"], q[:-1]]
+        else:
+            q = [b"p%d" % i for i in range(r.choice([30, 200, 900]))]
+            plist = [q, q[: len(q) // 2], q + [b"leaf"], q]
+        files = [dsort([(b"length", r.choice([0, 1, 7])), (b"path", q)]) for q in plist]
+        return kind, enc(with_info(t, lambda i: dset(dset(dset(i, b"length", None), b"md5sum", None), b"files", files)))
     if kind == "valid":
         return kind, enc(t)
     if kind == "int":
@@ -310,6 +342,8 @@ def corpus():
                                      ] + list(kw.get("top", []))))
     multi = lambda lens: enc(dsort([(b"info", dsort([(b"files", [dsort([(b"length", n), (b"path", [b"f%d" % i])]) for i, n in enumerate(lens)]),
                                                      (b"name", b"n"), (b"piece length", 16384), (b"pieces", b"")]))]))
+    multi_paths = lambda pl: enc(dsort([(b"info", dsort([(b"files", [dsort([(b"length", 1), (b"path", q)]) for q in pl]),
+                                                         (b"name", b"n"), (b"piece length", 16384), (b"pieces", b"")]))]))
     multi_path = lambda path: enc(dsort([(b"info", dsort([(b"files", [dsort([(b"length", 1), (b"path", path)])]),
                                                           (b"name", b"n"), (b"piece length", 16384), (b"pieces", b"")]))]))
     return [
@@ -326,6 +360,10 @@ def corpus():
         ("corpus-nest-in-info", b"d4:info" + b"l" * 200000 + b"e" * 200000 + b"e"),
         ("corpus-deep-path-50000", multi_path([b"x"] * 50000)),
         ("corpus-valid", single(top=[(b"creation date", 1600000000)])),
+        ("corpus-duplicate-path", multi_paths([[b"a", b"b"], [b"a", b"b"]])),
+        ("corpus-duplicate-path-apart", multi_paths([[b"a"], [b"b"], [b"a"]])),
+        ("corpus-path-prefix-of-path", multi_paths([[b"a"], [b"a", b"b"]])),
+        ("corpus-path-extends-path", multi_paths([[b"a", b"b"], [b"a"]])),
     ]
 
 
